@@ -462,7 +462,8 @@ class Ctx:
                 "ties": self.ties,
                 "known_finding_hits": self.known_hits,
                 "notes": self.notes,
-                **({"exhaustive": self.exhaustive} if self.exhaustive is not None else {}),
+                **({"exhaustive": True} if self.exhaustive is True else
+                   {"exhaustively_enumerated_parts": self.exhaustive} if self.exhaustive is not None else {}),
                 **self.extra,
             },
             "assumptions": list(assumptions),
